@@ -3,15 +3,12 @@
 package main
 
 import (
-	"bytes"
 	"context"
 	"database/sql"
 	"encoding/json"
 	"errors"
 	"fmt"
 	"io"
-	"os"
-	"path/filepath"
 	"sort"
 	"strings"
 	"sync"
@@ -132,28 +129,38 @@ type c22Publisher struct {
 	tests   int
 }
 
-func c22KeyOfPayload(p []byte) string {
+func c22KeyOfPayload(p []byte) string { _, k := c22BucketKeyOfPayload(p); return k }
+
+// c22BucketKeyOfPayload reads the bucket name and object key a notification payload names
+// (s3-records and eventbridge formats).
+func c22BucketKeyOfPayload(p []byte) (string, string) {
 	var v struct {
 		Records []struct {
 			S3 struct {
+				Bucket struct {
+					Name string `json:"name"`
+				} `json:"bucket"`
 				Object struct {
 					Key string `json:"key"`
 				} `json:"object"`
 			} `json:"s3"`
 		}
 		Detail struct {
+			Bucket struct {
+				Name string `json:"name"`
+			} `json:"bucket"`
 			Object struct {
 				Key string `json:"key"`
 			} `json:"object"`
 		} `json:"detail"`
 	}
 	if json.Unmarshal(p, &v) != nil {
-		return ""
+		return "", ""
 	}
 	if len(v.Records) > 0 {
-		return v.Records[0].S3.Object.Key
+		return v.Records[0].S3.Bucket.Name, v.Records[0].S3.Object.Key
 	}
-	return v.Detail.Object.Key
+	return v.Detail.Bucket.Name, v.Detail.Object.Key
 }
 
 func (p *c22Publisher) Publish(_ context.Context, e *notification.OutboxEntry) error {
@@ -194,6 +201,7 @@ type c22Env struct {
 	pub    *c22Publisher
 	mw     *notification.StorageMiddleware // not started: rows stay in the outbox for inspection
 	seen   map[string]bool                 // outbox row ids already reported
+	shared bool                            // the storage's database handle is the one given to the middleware
 	commit struct {
 		mu    sync.Mutex
 		armed bool
@@ -208,6 +216,13 @@ func c22NewEnv(dir string) *c22Env {
 	}})
 	e.repo = &c22Repo{Repository: notification.NewSQLRepository(), failAt: -1}
 	e.pub = &c22Publisher{scripts: map[string][]bool{}, calls: map[string][]c22PubCall{}}
+	if ds, ok := e.st.Storage.(interface{ Database() database.Database }); ok {
+		inner := ds.Database()
+		e.shared = inner == e.st.DB
+		if w, ok := inner.(interface{ UnwrapDatabase() database.Database }); ok && w.UnwrapDatabase() == e.st.DB {
+			e.shared = true
+		}
+	}
 	e.mw = verifx.Must(notification.NewStorageMiddleware(&c22Inner{delegator.Wrap(e.st.Storage)}, e.st.DB, e.repo, e.pub, "hist", time.Minute, notification.DispatcherConfig{}, nil))
 	database.SetVerifPointFunc(func(ctx context.Context, name string, _ int) error {
 		// only the transaction of the call under test (background tasks of the storage commit too)
@@ -227,22 +242,24 @@ func c22NewEnv(dir string) *c22Env {
 
 type c22OpCtxKey struct{}
 
-type c22Row struct{ id, dest, event string }
+type c22Row struct{ id, dest, event, bucket, key string }
 
 // newRows reads the outbox table and returns the rows of outboxID not reported before.
 func (e *c22Env) newRows(outboxID string) []c22Row {
 	var rows []c22Row
 	verifx.Check(database.WithTx(e.ctx, e.st.DB, &sql.TxOptions{ReadOnly: true}, func(ctx context.Context, tx database.Tx) error {
-		rs, err := tx.SqlTx().QueryContext(ctx, "SELECT id, destination_arn, event_name FROM notification_outbox_entries WHERE outbox_id = $1 ORDER BY id ASC", outboxID)
+		rs, err := tx.SqlTx().QueryContext(ctx, "SELECT id, destination_arn, event_name, payload FROM notification_outbox_entries WHERE outbox_id = $1 ORDER BY id ASC", outboxID)
 		if err != nil {
 			return err
 		}
 		defer rs.Close()
 		for rs.Next() {
 			var r c22Row
-			if err := rs.Scan(&r.id, &r.dest, &r.event); err != nil {
+			var payload []byte
+			if err := rs.Scan(&r.id, &r.dest, &r.event, &payload); err != nil {
 				return err
 			}
+			r.bucket, r.key = c22BucketKeyOfPayload(payload)
 			if !e.seen[r.id] {
 				e.seen[r.id] = true
 				rows = append(rows, r)
@@ -378,506 +395,3 @@ func c22MatchCase(out *verifx.Out, r *verifx.Rng, directed bool) {
 	}
 }
 
-type c22Op struct {
-	kind  string // put putpartfault putprecond copy copymissing delete deleteversion delobjs complete tagput tagputmissing tagdel append appendnew
-	key   string
-	fault string // none | mutation | insert:<i> | commit
-}
-
-func c22HistCase(out *verifx.Out, e *c22Env, k int, r *verifx.Rng, ops []c22Op, cfg *storage.BucketNotificationConfiguration, versioned bool) {
-	ctx := e.ctx
-	out.Line("kind hist")
-	b := storage.MustNewBucketName(fmt.Sprintf("c22h%d", k))
-	// the storage and the middleware share one database handle: the premise of entry_iff_committed
-	shared := e.mw != nil && (&c22Inner{delegator.Wrap(e.st.Storage)}).Database() != nil
-	out.Line("shared %s", c22Ok(shared, "0"))
-	_ = e.st.Storage.DeleteBucket(ctx, b)
-	verifx.Check(e.mw.CreateBucket(ctx, b))
-	if versioned {
-		s := storage.BucketVersioningStatusEnabled
-		verifx.Check(e.mw.PutBucketVersioningConfiguration(ctx, b, &storage.BucketVersioningConfiguration{Status: &s}))
-	}
-	verifx.Check(e.mw.PutBucketNotificationConfiguration(ctx, b, cfg))
-	out.Line("cfg %s %s %s", verifx.HexS(b.String()), c22Ok(cfg.EventBridgeEnabled, "0"), c22Ok(versioned, "0"))
-	for _, rules := range [][]storage.NotificationConfigurationRule{cfg.TopicConfigurations, cfg.QueueConfigurations, cfg.CloudFunctionConfigurations} {
-		for _, ru := range rules {
-			d, ev, f := c22RuleToks(ru)
-			out.Line("rule %s %s %s", d, ev, f)
-		}
-	}
-	e.newRows("hist") // forget rows of earlier cases
-	seq := 0
-	body := func() []byte { seq++; return []byte(fmt.Sprintf("case-%d-body-%d-%d", k, seq, r.Intn(1000000))) }
-	key := func(s string) storage.ObjectKey { return storage.MustNewObjectKey(s) }
-	for _, op := range ops {
-		keys := []string{op.key}
-		if op.kind == "delobjs" {
-			keys = []string{op.key, op.key + ".2"}
-		}
-		// preconditions of the op kind (set up through the inner storage: no notifications)
-		exists := func(kk string) bool { _, err := e.st.Storage.HeadObject(ctx, b, key(kk), nil); return err == nil }
-		ensure := func(kk string) {
-			if !exists(kk) {
-				_, err := e.st.Storage.PutObject(ctx, b, key(kk), nil, bytes.NewReader(body()), nil, nil)
-				verifx.Check(err)
-			}
-		}
-		muts := []string{}
-		var uploadID storage.UploadId
-		switch op.kind {
-		case "copy":
-			// fresh source content, so that the copy changes the destination even if it was copied there before
-			_, err := e.st.Storage.PutObject(ctx, b, key("src/object"), nil, bytes.NewReader(body()), nil, nil)
-			verifx.Check(err)
-		case "delete", "deleteversion", "tagput", "putprecond":
-			ensure(op.key)
-		case "tagdel":
-			ensure(op.key)
-			verifx.Check(e.st.Storage.PutObjectTagging(ctx, b, key(op.key), map[string]string{"t": fmt.Sprint(seq)}, nil))
-		case "append":
-			// appendable: a plain single-part object
-			_, err := e.st.Storage.PutObject(ctx, b, key(op.key), nil, bytes.NewReader(body()), nil, nil)
-			verifx.Check(err)
-		case "delobjs":
-			ensure(keys[0])
-			ensure(keys[1])
-		case "appendnew":
-			if exists(op.key) {
-				_, err := e.st.Storage.DeleteObject(ctx, b, key(op.key), nil)
-				verifx.Check(err)
-			}
-		case "complete":
-			up := verifx.Must(e.st.Storage.CreateMultipartUpload(ctx, b, key(op.key), nil, nil, nil))
-			uploadID = up.UploadId
-			for p := 1; p <= 2; p++ {
-				verifx.Must(e.st.Storage.UploadPart(ctx, b, key(op.key), uploadID, int32(p), bytes.NewReader(body()), nil))
-			}
-		}
-		var vid *string
-		if op.kind == "deleteversion" {
-			vs := verifx.Must(e.st.Storage.ListObjectVersions(ctx, b, storage.ListObjectVersionsOptions{Prefix: &op.key, MaxKeys: 10}))
-			for _, v := range vs.Versions {
-				if v.Key.String() == op.key && v.IsLatest {
-					id := v.VersionID
-					vid = &id
-				}
-			}
-		}
-		before := make([]string, len(keys))
-		for i, kk := range keys {
-			before[i] = e.snap(b, kk)
-		}
-		// arm the fault
-		e.repo.arm(-1)
-		switch {
-		case op.fault == "commit":
-			e.commit.mu.Lock()
-			e.commit.armed = true
-			e.commit.mu.Unlock()
-		case strings.HasPrefix(op.fault, "insert:"):
-			var i int
-			fmt.Sscanf(op.fault, "insert:%d", &i)
-			e.repo.arm(i)
-		}
-		var err error
-		func() {
-			defer func() {
-				if p := recover(); p != nil {
-					err = fmt.Errorf("panic: %v", p)
-					out.Line("panic %s", verifx.HexS(fmt.Sprint(p)))
-				}
-			}()
-			ctx := context.WithValue(ctx, c22OpCtxKey{}, 1) // marks the call under test for the commit fault
-			switch op.kind {
-			case "put":
-				muts = []string{"put"}
-				_, err = e.mw.PutObject(ctx, b, key(op.key), nil, bytes.NewReader(body()), nil, nil)
-			case "putpartfault":
-				muts = []string{"put"}
-				e.ps.mu.Lock()
-				e.ps.failNext = true
-				e.ps.mu.Unlock()
-				_, err = e.mw.PutObject(ctx, b, key(op.key), nil, bytes.NewReader(body()), nil, nil)
-			case "putprecond":
-				muts = []string{"put"}
-				_, err = e.mw.PutObject(ctx, b, key(op.key), nil, bytes.NewReader(body()), nil, &storage.PutObjectOptions{IfNoneMatchStar: true})
-			case "copy":
-				muts = []string{"copy"}
-				_, err = e.mw.CopyObject(ctx, b, key("src/object"), b, key(op.key), nil)
-			case "copymissing":
-				muts = []string{"copy"}
-				_, err = e.mw.CopyObject(ctx, b, key("src/does-not-exist"), b, key(op.key), nil)
-			case "delete":
-				muts = []string{"delete"}
-				if versioned {
-					muts = []string{"deleteMarkerCreated"}
-				}
-				_, err = e.mw.DeleteObject(ctx, b, key(op.key), nil)
-			case "deleteversion":
-				muts = []string{"delete"}
-				_, err = e.mw.DeleteObject(ctx, b, key(op.key), &storage.DeleteObjectOptions{VersionID: vid})
-			case "delobjs":
-				m := "delete"
-				if versioned {
-					m = "deleteMarkerCreated"
-				}
-				muts = []string{m, m}
-				var res *storage.DeleteObjectsResult
-				res, err = e.mw.DeleteObjects(ctx, b, []storage.DeleteObjectsInputEntry{{Key: key(keys[0])}, {Key: key(keys[1])}})
-				if err == nil && res != nil {
-					for _, en := range res.Entries {
-						if !en.Deleted {
-							err = errors.New("entry not deleted")
-						}
-					}
-				}
-			case "complete":
-				muts = []string{"completeMultipart"}
-				_, err = e.mw.CompleteMultipartUpload(ctx, b, key(op.key), uploadID, nil, nil)
-			case "tagput":
-				muts = []string{"taggingPut"}
-				err = e.mw.PutObjectTagging(ctx, b, key(op.key), map[string]string{"seq": fmt.Sprint(seq), "n": fmt.Sprint(r.Intn(1000000))}, nil)
-			case "tagputmissing":
-				muts = []string{"taggingPut"}
-				err = e.mw.PutObjectTagging(ctx, b, key("missing/"+op.key), map[string]string{"a": "b"}, nil)
-			case "tagdel":
-				muts = []string{"taggingDelete"}
-				err = e.mw.DeleteObjectTagging(ctx, b, key(op.key), nil)
-			case "append", "appendnew":
-				muts = []string{"append"}
-				_, err = e.mw.AppendObject(ctx, b, key(op.key), bytes.NewReader(body()), nil, nil)
-			}
-		}()
-		e.commit.mu.Lock()
-		e.commit.armed = false
-		e.commit.mu.Unlock()
-		e.repo.arm(-1)
-		e.ps.mu.Lock()
-		e.ps.failNext = false
-		e.ps.mu.Unlock()
-		changed, unchanged := 0, 0
-		for i, kk := range keys {
-			if e.snap(b, kk) != before[i] {
-				changed++
-			} else {
-				unchanged++
-			}
-		}
-		ch := "0"
-		if changed == len(keys) {
-			ch = "1"
-		} else if changed > 0 {
-			ch = "partial"
-		}
-		rows := e.newRows("hist")
-		rt := make([]string, len(rows))
-		for i, rw := range rows {
-			rt[i] = verifx.HexS(rw.dest) + ":" + verifx.HexS(rw.event)
-		}
-		rtok := c22None
-		if len(rt) > 0 {
-			rtok = strings.Join(rt, ",")
-		}
-		hk := make([]string, len(keys))
-		for i, kk := range keys {
-			hk[i] = verifx.HexS(kk)
-		}
-		out.Line("op %s %s %s %s %s %s %s", op.kind, strings.Join(hk, ","), op.fault, strings.Join(muts, ","), c22Ok(err == nil, "err"), ch, rtok)
-	}
-	// the repository's own count agrees with the table
-	out.Line("count %d", e.repoCount("hist")-len(e.seen))
-	_ = sort.Strings
-}
-
-func c22GenHist(r *verifx.Rng) ([]c22Op, *storage.BucketNotificationConfiguration, bool) {
-	cfg := &storage.BucketNotificationConfiguration{EventBridgeEnabled: r.Chance(1, 6)}
-	nr := r.Intn(4)
-	for i := 0; i < nr; i++ {
-		ru := c22GenRule(r, true)
-		switch r.Intn(3) {
-		case 0:
-			ru.DestinationType = storage.NotificationDestinationTopic
-			cfg.TopicConfigurations = append(cfg.TopicConfigurations, ru)
-		case 1:
-			cfg.QueueConfigurations = append(cfg.QueueConfigurations, ru)
-		default:
-			ru.DestinationType = storage.NotificationDestinationCloudFunction
-			cfg.CloudFunctionConfigurations = append(cfg.CloudFunctionConfigurations, ru)
-		}
-	}
-	versioned := r.Chance(1, 3)
-	kinds := []string{"put", "put", "put", "copy", "delete", "delete", "delobjs", "complete", "tagput", "tagdel", "append", "appendnew", "putpartfault", "putprecond", "copymissing", "tagputmissing"}
-	if versioned {
-		kinds = append(kinds, "deleteversion")
-	}
-	n := 4 + r.Intn(6)
-	var ops []c22Op
-	for i := 0; i < n; i++ {
-		op := c22Op{kind: verifx.Pick(r, kinds), key: verifx.Pick(r, c22KeyPool[:4]), fault: "none"}
-		switch op.kind {
-		case "putpartfault", "putprecond", "copymissing", "tagputmissing":
-			op.fault = "mutation"
-		default:
-			switch r.Intn(10) {
-			case 0, 1:
-				op.fault = fmt.Sprintf("insert:%d", r.Intn(3))
-			case 2:
-				op.fault = "commit"
-			}
-		}
-		ops = append(ops, op)
-	}
-	return ops, cfg, versioned
-}
-
-type c22DispCfg struct {
-	max, conc, batch int
-	min, maxb        time.Duration
-	scripts          [][]bool
-}
-
-func c22DispCase(out *verifx.Out, e *c22Env, k int, dc c22DispCfg) {
-	ctx := e.ctx
-	out.Line("kind disp")
-	out.Line("dcfg %d %d %d %d %d", dc.max, dc.min.Milliseconds(), dc.maxb.Milliseconds(), dc.conc, dc.batch)
-	outbox := fmt.Sprintf("disp%d", k)
-	pub := &c22Publisher{scripts: map[string][]bool{}, calls: map[string][]c22PubCall{}}
-	mw := verifx.Must(notification.NewStorageMiddleware(&c22Inner{delegator.Wrap(e.st.Storage)}, e.st.DB, notification.NewSQLRepository(), pub, outbox, time.Minute,
-		notification.DispatcherConfig{MaxAttempts: dc.max, MinBackoff: dc.min, MaxBackoff: dc.maxb, Concurrency: dc.conc, BatchSize: dc.batch}, nil))
-	b := storage.MustNewBucketName(fmt.Sprintf("c22d%d", k))
-	_ = e.st.Storage.DeleteBucket(ctx, b)
-	verifx.Check(mw.CreateBucket(ctx, b))
-	verifx.Check(mw.PutBucketNotificationConfiguration(ctx, b, &storage.BucketNotificationConfiguration{QueueConfigurations: []storage.NotificationConfigurationRule{{
-		DestinationType: storage.NotificationDestinationQueue, DestinationARN: c22DestPool[0], Events: []string{"s3:ObjectCreated:*"}}}}))
-	keys := make([]string, len(dc.scripts))
-	for i, s := range dc.scripts {
-		keys[i] = fmt.Sprintf("entry/%03d", i)
-		pub.scripts[keys[i]] = s
-	}
-	verifx.Check(mw.Start(ctx))
-	for _, kk := range keys {
-		_, err := mw.PutObject(ctx, b, storage.MustNewObjectKey(kk), nil, bytes.NewReader([]byte(kk)), nil, nil)
-		verifx.Check(err)
-	}
-	// the dispatcher wakes on a committed enqueue (or once a second): tick it with enqueues for a key
-	// whose publishes always succeed, until every scripted entry is settled or the budget is used up
-	type row struct {
-		attempts int
-		dead     bool
-		nextAt   time.Time
-		updated  time.Time
-	}
-	readRows := func() map[string]row {
-		m := map[string]row{}
-		verifx.Check(database.WithTx(ctx, e.st.DB, &sql.TxOptions{ReadOnly: true}, func(ctx context.Context, tx database.Tx) error {
-			rs, err := tx.SqlTx().QueryContext(ctx, "SELECT payload, attempts, dead_lettered_at IS NOT NULL, next_attempt_at, updated_at FROM notification_outbox_entries WHERE outbox_id = $1", outbox)
-			if err != nil {
-				return err
-			}
-			defer rs.Close()
-			for rs.Next() {
-				var p []byte
-				var r row
-				if err := rs.Scan(&p, &r.attempts, &r.dead, &r.nextAt, &r.updated); err != nil {
-					return err
-				}
-				m[c22KeyOfPayload(p)] = r
-			}
-			return rs.Err()
-		}))
-		return m
-	}
-	need := func(s []bool) int { // publishes this script leads to
-		n := 0
-		for _, ok := range s {
-			n++
-			if ok || (dc.max > 0 && n >= dc.max) {
-				return n
-			}
-		}
-		return n
-	}
-	var budget time.Duration
-	for i := 1; i <= 8; i++ {
-		d := dc.min << (i - 1)
-		if d > dc.maxb {
-			d = dc.maxb
-		}
-		budget += d
-	}
-	deadline := time.Now().Add(budget + 4*time.Second)
-	tick := storage.MustNewObjectKey("tick")
-	for time.Now().Before(deadline) {
-		done := true
-		pub.mu.Lock()
-		for i, kk := range keys {
-			if len(pub.calls[kk]) < need(dc.scripts[i]) {
-				done = false
-			}
-		}
-		pub.mu.Unlock()
-		if done {
-			break
-		}
-		time.Sleep(4 * time.Millisecond)
-		_, _ = mw.PutObject(ctx, b, tick, nil, bytes.NewReader([]byte("t")), nil, nil)
-	}
-	// one more scheduling opportunity AFTER every entry is settled and every backoff has elapsed: nothing more may be published
-	time.Sleep(dc.maxb + 30*time.Millisecond)
-	_, _ = mw.PutObject(ctx, b, tick, nil, bytes.NewReader([]byte("t")), nil, nil)
-	time.Sleep(60 * time.Millisecond)
-	verifx.Check(mw.Stop(ctx))
-	rows := readRows()
-	pub.mu.Lock()
-	defer pub.mu.Unlock()
-	for i, kk := range keys {
-		sc := make([]byte, len(dc.scripts[i]))
-		for j, ok := range dc.scripts[i] {
-			sc[j] = '0'
-			if ok {
-				sc[j] = '1'
-			}
-		}
-		st := "~"
-		if len(sc) > 0 {
-			st = string(sc)
-		}
-		out.Line("entry %d %s", i, st)
-		calls := pub.calls[kk]
-		for j, c := range calls {
-			// the delay scheduled after call j: the instant the NEXT attempt was scheduled for (as the next
-			// Publish sees it, or as the row says) minus the instant call j returned
-			delay := "~"
-			if !c.ok {
-				if j+1 < len(calls) {
-					delay = fmt.Sprint(calls[j+1].nextAt.Sub(c.ret).Milliseconds())
-				} else if rw, ok := rows[kk]; ok && !rw.dead {
-					delay = fmt.Sprint(rw.nextAt.Sub(c.ret).Milliseconds())
-				}
-			}
-			// never early: the next publish started no earlier than it was scheduled for
-			early := "0"
-			if j+1 < len(calls) && calls[j+1].start.Before(calls[j+1].nextAt) {
-				early = "1"
-			}
-			out.Line("pub %d %d %s %s %s", i, c.attempt, c22Ok(c.ok, "0"), delay, early)
-		}
-		fin := "delivered"
-		att := "~"
-		if rw, ok := rows[kk]; ok {
-			att = fmt.Sprint(rw.attempts)
-			if rw.dead {
-				fin = "dead"
-			} else {
-				fin = "pending"
-			}
-		}
-		out.Line("final %d %s %s", i, fin, att)
-	}
-}
-
-func c22Scripts(r *verifx.Rng, n, max int) [][]bool {
-	var out [][]bool
-	// directed: immediate success, fail k times then succeed, fail forever (max+2 failures)
-	out = append(out, []bool{true})
-	lim := max
-	if lim == 0 {
-		lim = 4
-	}
-	for k := 1; k <= lim+1 && len(out) < n; k++ {
-		s := make([]bool, k+1)
-		s[k] = true
-		out = append(out, s)
-	}
-	out = append(out, make([]bool, lim+2))
-	for len(out) < n {
-		l := 1 + r.Intn(lim+2)
-		s := make([]bool, l)
-		for i := range s {
-			s[i] = r.Chance(1, 3)
-		}
-		if max == 0 {
-			s[l-1] = true // unlimited retries: let it end
-		}
-		out = append(out, s)
-	}
-	return out
-}
-
-func runC22(args []string) {
-	f := verifx.ParseFlags("c22", args, 400, 2500)
-	out := verifx.NewOut()
-	_ = os.RemoveAll(filepath.Join(f.Scratch, "c22")) // a leftover of an interrupted run
-	e := c22NewEnv(filepath.Join(f.Scratch, "c22"))
-	defer e.st.Close()
-	defer database.SetVerifPointFunc(nil)
-	k := 0
-	run := func(seed uint64, fn func(r *verifx.Rng)) {
-		if f.Wants(k) {
-			out.Case(k, seed)
-			func() {
-				defer func() {
-					if p := recover(); p != nil {
-						out.Line("panic %s", verifx.HexS(fmt.Sprint(p)))
-					}
-				}()
-				fn(verifx.NewRng(seed))
-			}()
-			out.End()
-		}
-		k++
-	}
-	// 0: matcher, directed table
-	run(0, func(r *verifx.Rng) { c22MatchCase(out, r, true) })
-	// 1-4: directed histories: every mutation kind without fault; a fault at every point of a put; AppendObject
-	all := &storage.BucketNotificationConfiguration{QueueConfigurations: []storage.NotificationConfigurationRule{
-		{DestinationType: storage.NotificationDestinationQueue, DestinationARN: c22DestPool[0], Events: []string{"s3:ObjectCreated:*", "s3:ObjectRemoved:*", "s3:ObjectTagging:*"}},
-		{DestinationType: storage.NotificationDestinationQueue, DestinationARN: c22DestPool[3], Events: []string{"s3:ObjectCreated:Put"}, FilterRules: []storage.NotificationFilterRule{{Name: "prefix", Value: "img/"}, {Name: "suffix", Value: ".jpg"}}},
-	}}
-	everyKind := []c22Op{{"put", "img/a.jpg", "none"}, {"put", "doc/a.txt", "none"}, {"copy", "img/b.png", "none"}, {"complete", "img/a.jpg", "none"}, {"tagput", "img/a.jpg", "none"},
-		{"tagdel", "img/a.jpg", "none"}, {"delobjs", "doc/a.txt", "none"}, {"delete", "img/a.jpg", "none"}}
-	run(1, func(r *verifx.Rng) { c22HistCase(out, e, k, r, everyKind, all, false) })
-	run(2, func(r *verifx.Rng) {
-		c22HistCase(out, e, k, r, append(append([]c22Op{}, everyKind...), c22Op{"deleteversion", "img/b.png", "none"}), all, true)
-	})
-	run(3, func(r *verifx.Rng) {
-		c22HistCase(out, e, k, r, []c22Op{{"put", "img/a.jpg", "insert:0"}, {"put", "img/a.jpg", "insert:1"}, {"put", "img/a.jpg", "insert:2"}, {"put", "img/a.jpg", "commit"},
-			{"putpartfault", "img/a.jpg", "mutation"}, {"putprecond", "img/b.png", "mutation"}, {"put", "img/a.jpg", "none"}, {"delete", "img/a.jpg", "insert:0"}, {"delete", "img/a.jpg", "commit"},
-			{"tagput", "img/a.jpg", "insert:0"}, {"copy", "img/b.png", "commit"}, {"complete", "doc/a.txt", "insert:0"}, {"delobjs", "img/a.jpg", "insert:1"}, {"copymissing", "a.jpg", "mutation"}, {"tagputmissing", "a.jpg", "mutation"}}, all, false)
-	})
-	run(4, func(r *verifx.Rng) {
-		c22HistCase(out, e, k, r, []c22Op{{"appendnew", "img/a.jpg", "none"}, {"append", "img/a.jpg", "none"}, {"put", "img/a.jpg", "none"}}, all, false)
-	})
-	// 5-7: dispatcher
-	ndisp := 3
-	for i := 0; i < ndisp; i++ {
-		i := i
-		run(uint64(100+i), func(r *verifx.Rng) {
-			rr := verifx.NewRng(verifx.CaseSeed(f.Seed, 1000+i))
-			dc := []c22DispCfg{
-				{max: 3, conc: 1, batch: 1, min: 40 * time.Millisecond, maxb: 100 * time.Millisecond},
-				{max: 5, conc: 4, batch: 8, min: 30 * time.Millisecond, maxb: 200 * time.Millisecond},
-				{max: 0, conc: 2, batch: 4, min: 25 * time.Millisecond, maxb: 60 * time.Millisecond},
-			}[i]
-			n := 24
-			if f.Tier == "thorough" {
-				n = 80
-			}
-			dc.scripts = c22Scripts(rr, n, dc.max)
-			c22DispCase(out, e, k, dc)
-		})
-	}
-	// generated: 1 matcher case per 8 histories
-	for c := 0; c < f.Cases; c++ {
-		seed := verifx.CaseSeed(f.Seed, k)
-		if c%8 == 0 {
-			run(seed, func(r *verifx.Rng) { c22MatchCase(out, r, false) })
-			continue
-		}
-		run(seed, func(r *verifx.Rng) {
-			ops, cfg, versioned := c22GenHist(r)
-			c22HistCase(out, e, k, r, ops, cfg, versioned)
-		})
-	}
-	out.Flush()
-}
